@@ -1,0 +1,5 @@
+//! Verification hooks (`--features verif-hooks`). Additive only: nothing here is compiled
+//! or reachable with the feature off.
+#![allow(missing_docs, clippy::all, dead_code, unused_imports)]
+
+pub mod c38;
